@@ -100,25 +100,86 @@ var ruleTar = &core.Rule{ID: "R18.1", Min: 8,
 			core.Bail("checksum routine: %d range loops over the block", len(rs))
 		}
 		r := rs[0]
-		var uPhi, sPhi *ssa.Phi
-		rets := core.Returns(g)
-		if len(rets) != 1 || rets[0].Block() != r.Done {
-			core.Bail("checksum routine: unexpected returns")
+		// accumulators: the integer loop-carried variables other than the range index
+		var accs []*ssa.Phi
+		for _, in := range r.Header.Instrs {
+			ph, ok := in.(*ssa.Phi)
+			if !ok {
+				break
+			}
+			if ph != r.Phi && core.IsInteger(ph.Type()) {
+				accs = append(accs, ph)
+			}
 		}
-		uPhi, _ = rets[0].Results[0].(*ssa.Phi)
-		sPhi, _ = rets[0].Results[1].(*ssa.Phi)
-		if uPhi == nil || sPhi == nil || uPhi.Block() != r.Header || sPhi.Block() != r.Header {
-			core.Bail("checksum routine: results are not the loop-carried sums")
+		rets := core.Returns(g)
+		if len(rets) != 1 || len(accs) == 0 {
+			core.Bail("checksum routine: unexpected shape (%d returns, %d accumulators)", len(rets), len(accs))
 		}
 		for k, p := range r.Header.Preds {
 			if !r.Header.Dominates(p) {
-				s.Check(core.IsConstInt(uPhi.Edges[k], 0) && core.IsConstInt(sPhi.Edges[k], 0), "sums start at 0", c.Pos(g.Pos()), "0, 0", "a checksum accumulator does not start at zero")
+				ok := true
+				for _, a := range accs {
+					if !core.IsConstInt(a.Edges[k], 0) {
+						ok = false
+					}
+				}
+				s.Check(ok, "sums start at 0", c.Pos(g.Pos()), "all accumulators 0", "a checksum accumulator does not start at zero")
 			}
 		}
 		ev := newEval(c)
+		// step: one iteration from the given accumulator values
+		step := func(state []int64, i, v int) ([]int64, error) {
+			ev.Env = fde.Env{r.Index: constant.MakeInt64(int64(i)), r.Load: constant.MakeInt64(int64(v))}
+			for k, a := range accs {
+				ev.Env[a] = constant.MakeInt64(state[k])
+			}
+			exits, err := ev.Walk(r.Body, r.Header, func(b *ssa.BasicBlock) bool { return b == r.Header }, 0)
+			if err != nil || len(exits) != 1 || exits[0].Stop != r.Header {
+				return nil, fmt.Errorf("iteration i=%d c=%#02x not evaluable: %v", i, v, err)
+			}
+			out := make([]int64, len(accs))
+			for k, a := range accs {
+				for e, p := range r.Header.Preds {
+					if p == exits[0].From {
+						nv, ok := exits[0].ValAt(ev, a.Edges[e])
+						if !ok {
+							return nil, fmt.Errorf("accumulator after the iteration not evaluable")
+						}
+						out[k], _ = constant.Int64Val(nv)
+					}
+				}
+			}
+			return out, nil
+		}
+		// result: the two returned sums for given final accumulator values
+		result := func(state []int64) ([2]int64, error) {
+			ev.Env = fde.Env{}
+			for k, a := range accs {
+				ev.Env[a] = constant.MakeInt64(state[k])
+			}
+			exits, err := ev.Walk(r.Done, r.Header, nil, 0)
+			if err != nil || len(exits) != 1 || exits[0].Ret == nil || len(exits[0].Ret.Results) != 2 {
+				return [2]int64{}, fmt.Errorf("results after the scan not evaluable: %v", err)
+			}
+			var out [2]int64
+			for k := 0; k < 2; k++ {
+				v, ok := exits[0].ValAt(ev, exits[0].Ret.Results[k])
+				if !ok {
+					return out, fmt.Errorf("result %d not evaluable", k)
+				}
+				out[k], _ = constant.Int64Val(v)
+			}
+			return out, nil
+		}
+		zero := make([]int64, len(accs))
 		bad, badSum := "", ""
 		lo, hi := -1, -1
 		n := 0
+		if r0, err := result(zero); err != nil {
+			bad = err.Error()
+		} else if r0 != [2]int64{0, 0} {
+			badSum = fmt.Sprintf("the sums of an empty scan are (%d, %d), not (0, 0)", r0[0], r0[1])
+		}
 		for i := 0; i < tarBlock && bad == ""; i++ {
 			vals := []int{0x00, 0x41, 0x7f, 0x80, 0xff}
 			if i == 0 || i == tarChkLo-1 || i == tarChkLo || i == tarChkHi-1 || i == tarChkHi || i == tarBlock-1 {
@@ -129,29 +190,20 @@ var ruleTar = &core.Rule{ID: "R18.1", Min: 8,
 			}
 			for _, v := range vals {
 				n++
-				ev.Env = fde.Env{r.Index: constant.MakeInt64(int64(i)), r.Load: constant.MakeInt64(int64(v)), uPhi: constant.MakeInt64(1000), sPhi: constant.MakeInt64(-1000)}
-				exits, err := ev.Walk(r.Body, r.Header, func(b *ssa.BasicBlock) bool { return b == r.Header }, 0)
-				if err != nil || len(exits) != 1 || exits[0].Stop != r.Header {
-					bad = fmt.Sprintf("iteration i=%d c=%#02x not evaluable: %v", i, v, err)
+				st1, err := step(zero, i, v)
+				if err != nil {
+					bad = err.Error()
 					break
 				}
-				var nu, ns constant.Value
-				for k, p := range r.Header.Preds {
-					if p == exits[0].From {
-						nu, _ = exits[0].ValAt(ev, uPhi.Edges[k])
-						ns, _ = exits[0].ValAt(ev, sPhi.Edges[k])
-					}
-				}
-				if nu == nil || ns == nil {
-					bad = "sums after the iteration not evaluable"
+				res, err := result(st1)
+				if err != nil {
+					bad = err.Error()
 					break
 				}
-				du, _ := constant.Int64Val(nu)
-				ds, _ := constant.Int64Val(ns)
-				du, ds = du-1000, ds+1000
+				du, ds := res[0], res[1]
 				blank := du == 32 && ds == 32 && v != 32
 				if v == 32 {
-					blank = i >= tarChkLo && i < tarChkHi // indistinguishable for a space: take the window
+					blank = i >= tarChkLo && i < tarChkHi
 				}
 				if blank {
 					if lo < 0 {
@@ -165,7 +217,29 @@ var ruleTar = &core.Rule{ID: "R18.1", Min: 8,
 					wantU, wantS = 32, 32
 				}
 				if (du != wantU || ds != wantS) && badSum == "" {
-					badSum = fmt.Sprintf("at index %d a byte %#02x adds (%d, %d) to the (unsigned, signed) sums; the tar checksum adds (%d, %d) there", i, v, du, ds, wantU, wantS)
+					badSum = fmt.Sprintf("at index %d a byte %#02x contributes (%d, %d) to the (unsigned, signed) sums; the tar checksum adds (%d, %d) there", i, v, du, ds, wantU, wantS)
+				}
+			}
+		}
+		// additivity: the results are sums of the per-byte contributions
+		if bad == "" && badSum == "" {
+			for _, pr := range [][4]int{{0, 0x80, 1, 0xff}, {10, 0x7f, 200, 0x81}, {147, 0xff, 156, 0xff}, {300, 0x01, 511, 0xfe}} {
+				a1, e1 := step(zero, pr[0], pr[1])
+				if e1 != nil {
+					bad = e1.Error()
+					break
+				}
+				a2, e2 := step(a1, pr[2], pr[3])
+				b2, e3 := step(zero, pr[2], pr[3])
+				if e2 != nil || e3 != nil {
+					bad = "second iteration not evaluable"
+					break
+				}
+				r12, _ := result(a2)
+				r1, _ := result(a1)
+				r2, _ := result(b2)
+				if r12[0] != r1[0]+r2[0] || r12[1] != r1[1]+r2[1] {
+					badSum = fmt.Sprintf("the sums are not additive: bytes %#02x@%d then %#02x@%d give (%d, %d) but their single contributions add up to (%d, %d)", pr[1], pr[0], pr[3], pr[2], r12[0], r12[1], r1[0]+r2[0], r1[1]+r2[1])
 				}
 			}
 		}
@@ -174,7 +248,7 @@ var ruleTar = &core.Rule{ID: "R18.1", Min: 8,
 		} else {
 			s.Check(lo == tarChkLo && hi == tarChkHi, "blanked window is [148,156) and equals the parsed window", c.Pos(g.Pos()), fmt.Sprintf("blanked [%d,%d), %d (index, byte) pairs tabulated", lo, hi, n),
 				fmt.Sprintf("the checksum routine treats indices [%d,%d) as spaces, the recorded checksum lives in [148,156): the recomputed sum would include (or exclude) the wrong bytes", lo, hi))
-			s.Check(badSum == "", "every byte of the block enters both sums", c.Pos(g.Pos()), "unsigned += c, signed += int8(c) for all 512 indices", badSum)
+			s.Check(badSum == "", "every byte of the block enters both sums", c.Pos(g.Pos()), "per-byte contribution is (c, int8(c)) for all 512 indices, sums additive", badSum)
 		}
 		// R18.4 acceptance
 		okAcc := false
